@@ -113,7 +113,7 @@ func (c *ctx) realClientConn(i int) {
 			return // the run ended before this op
 		}
 		ps := op.Pkt
-		hdrOK := model.Header{Version: ps.Ver, Type: ps.Type, Seq: ps.Seq}.ValidHeader() || (ps.Ver>>4 == 0xc && ps.Ver&0xf <= 1 && ps.Type >= 1 && ps.Type <= 3 && ps.Seq != 0)
+		hdrOK := ps.Ver>>4 == 0xc && ps.Ver&0xf <= 1 && ps.Type >= 1 && ps.Type <= 3 && ps.Seq != 0 && ps.SeqWide == 0
 		body := ps.Body
 		rep := body.Kind == "raw" || body.Representable()
 		tooBig := len(body.Encode()) > model.MaxBody
@@ -136,7 +136,7 @@ func (c *ctx) realClientConn(i int) {
 		if !hdrOK || tooBig {
 			// the header is not one the library accepts: Send must fail, nothing on the wire
 			if _, failed := sendErr[k]; !failed {
-				c.v("C02/invalid-header-sent", "client op %d: packet with an invalid header or oversize body was sent", k)
+				c.v("C02/invalid-header-sent", "client op %d: packet with a header the wire cannot represent (sequence number %d/%d, version %#x, type %d) or an oversize body was sent", k, ps.Seq, ps.SeqWide, ps.Ver, ps.Type)
 			}
 			return // Send's write failed: the device would give up on this connection
 		}
